@@ -59,7 +59,7 @@ def preload():
 
 
 EXPECTED_PROBES = {t: ["torn_root_inside_token", "torn_module", "torn_to_empty", "garble_float_id", "garble_string_enum_value",
-                       "garble_unknown_param", "garble_param_arity", "garble_empty_enum", "garble_array_size", "garble_deep_nest", "other_text:random_tokens", "other_text:crlf", "other_text:bom", "banner_comment", "exotic_line_separators", "root_path:symlink", "root_path:rel",
+                       "garble_unknown_param", "garble_param_arity", "garble_empty_enum", "garble_array_size", "garble_deep_nest", "garble_int_width", "garble_import_cycle", "other_text:random_tokens", "other_text:crlf", "other_text:bom", "banner_comment", "exotic_line_separators", "root_path:symlink", "root_path:rel",
                        "missing_module", "empty_module", "string_api", "tree_modified_in_place", "shared_logger_reused", "err_rendered",
                        "citation_checked"] for t in TIERS}
 
@@ -107,7 +107,7 @@ def closed(root):
     return True
 
 
-def targeted(rng, text, toks):
+def targeted(rng, text, toks, self_mod="main"):
     """Out-of-domain literal faults. Returns list of (kind, new_text)."""
     out = []
     ids = [m for m in re.finditer(r"@\s*(\d+)", text)]
@@ -149,6 +149,21 @@ def targeted(rng, text, toks):
         m = rng.choice(vals)
         n = rng.choice([400, 1500])
         out.append(("garble_deep_nest", text[:m.start(1)] + "[" * n + m.group(1) + "]" * n + text[m.end(1):]))
+    # integer widths outside 1..64 (the grammar takes any one or two digits)
+    iw = [m for m in re.finditer(r"[:\[] ?([ui]\d{1,2})\b", text)]
+    if iw:
+        m = rng.choice(iw)
+        out.append(("garble_int_width", text[:m.start(1)] + rng.choice(["u0", "i0", "u00", "i72", "u99", "i65", "u65"]) + text[m.end(1):]))
+    # an import cycle: this file imports itself / the root (in place of a declaration boundary)
+    decl = [m for m in re.finditer(r"\n(?=struct |enum |impl |service |device )", text)]
+    if decl and rng.random() < 0.35:          # costly (the import recursion runs into the recursion limit): not on every file
+        m = rng.choice(decl)
+        out.append(("garble_import_cycle", text[:m.end()] + rng.choice(["mod main;\n", f"mod {self_mod};\n"]) + text[m.end():]))
+    # a string literal ending in an escaped backslash, and one with an escaped quote
+    us = [m for m in re.finditer(r'unit\("([^"]*)"\)', text)]
+    if us:
+        m = rng.choice(us)
+        out.append(("garble_string_escapes", text[:m.start(1)] + rng.choice(["C:\\\\", "a\\\"b", "\\\\", "x\\\\\\\\"]) + text[m.end(1):]))
     ar = [m for m in re.finditer(r"\[[^\[\],]+, (\d+)\]", text)]
     if ar:
         m = rng.choice(ar)
@@ -212,9 +227,9 @@ def other_texts(rng, text):
 # ---------------------------------------------------------------------------
 
 
-def judge_parse(par, api, arg, logger_mode, sources, probes):
+def judge_parse(par, api, arg, logger_mode, sources, probes, timeout=15):
     """Returns (violations [(class, detail, msg)], outcome)."""
-    res = par.parse(api, arg, logger_mode)
+    res = par.parse(api, arg, logger_mode, timeout)
     out = res["outcome"]
     if out == "hang":
         return [("hang", "parse", res["detail"])], out
@@ -324,20 +339,21 @@ def run_one(seed: int, index: int, tier: str) -> dict:
         else:
             ff[file] = newtext
         mode = modes[rl.randrange(3)]
+        tmo = 120 if kind == "garble_import_cycle" else 15     # a cycle ends at the recursion limit: slow, but it ends
         if mode == "shared":
             probes["shared_logger_reused"] += 1
         if api == "string":
-            v, out = judge_parse(par, "string", ff["main.fcp"], mode, {"main.fcp": [ff["main.fcp"]]}, probes)
+            v, out = judge_parse(par, "string", ff["main.fcp"], mode, {"main.fcp": [ff["main.fcp"]]}, probes, tmo)
         elif api == "string_in_dir":
             sub = base / "tree" if inplace else base / f"t{k}"
             K.sync_files(sub, ff)
             os.chdir(sub)
-            v, out = judge_parse(par, "string", ff.get("main.fcp", ""), mode, source_map(ff), probes)
+            v, out = judge_parse(par, "string", ff.get("main.fcp", ""), mode, source_map(ff), probes, tmo)
         else:
             # the tree lives in ONE directory that the faults modify in place (70 % of the runs)
             sub = base / "tree" if inplace else base / f"t{k}"
             K.sync_files(sub, ff)
-            v, out = judge_parse(par, "file", root_path(sub, "main.fcp", path_style), mode, source_map(ff), probes)
+            v, out = judge_parse(par, "file", root_path(sub, "main.fcp", path_style), mode, source_map(ff), probes, tmo)
         res["evals"] += 1
         # what a replay needs: the first parse of this run whose error was rendered through the same long-lived
         # logger (it may have filled a cache there), then the last three parses
@@ -380,7 +396,8 @@ def run_one(seed: int, index: int, tier: str) -> dict:
             for kind, newtext, tk in garbles(rf, text, 28):
                 k += 1
                 deliver(kind, file, newtext, base, k, tk)
-            for kind, newtext in targeted(rf, text, toks):
+            self_mod = ".".join(os.path.splitext(file)[0].split(os.sep))
+            for kind, newtext in targeted(rf, text, toks, self_mod):
                 k += 1
                 probes[kind] += 1
                 deliver(kind, file, newtext, base, k, "literal")
@@ -415,29 +432,30 @@ def check_workload(w):
     out = []
     probes = Counter()
     mode = w.get("logger", "fresh")
+    tmo = 120 if w.get("fault", {}).get("kind") == "garble_import_cycle" else 15
     with Scratch("c11r") as base:
         # the parses that preceded this one in the same process and directory (not judged)
         for hf in w.get("history", []):
             files_h, mode_h = (hf["files"], hf.get("logger", mode)) if "files" in hf else (hf, mode)
             # parsed AND rendered, exactly like in the run (rendering is what touches the logger's state)
             if w.get("api") == "string":
-                judge_parse(par, "string", files_h["main.fcp"], mode_h, {"main.fcp": [files_h["main.fcp"]]}, probes)
+                judge_parse(par, "string", files_h["main.fcp"], mode_h, {"main.fcp": [files_h["main.fcp"]]}, probes, 120)
             elif w.get("api") == "string_in_dir":
                 K.sync_files(base / "t", files_h)
                 os.chdir(base / "t")
-                judge_parse(par, "string", files_h.get("main.fcp", ""), mode_h, source_map(files_h), probes)
+                judge_parse(par, "string", files_h.get("main.fcp", ""), mode_h, source_map(files_h), probes, 120)
             else:
                 K.sync_files(base / "t", files_h)
-                judge_parse(par, "file", root_path(base / "t", "main.fcp", w.get("path_style", "abs")), mode_h, source_map(files_h), probes)
+                judge_parse(par, "file", root_path(base / "t", "main.fcp", w.get("path_style", "abs")), mode_h, source_map(files_h), probes, 120)
         if w.get("api") == "string":
-            v, _ = judge_parse(par, "string", files["main.fcp"], mode, {"main.fcp": [files["main.fcp"]]}, probes)
+            v, _ = judge_parse(par, "string", files["main.fcp"], mode, {"main.fcp": [files["main.fcp"]]}, probes, tmo)
         elif w.get("api") == "string_in_dir":
             K.sync_files(base / "t", files)
             os.chdir(base / "t")
-            v, _ = judge_parse(par, "string", files.get("main.fcp", ""), mode, source_map(files), probes)
+            v, _ = judge_parse(par, "string", files.get("main.fcp", ""), mode, source_map(files), probes, tmo)
         else:
             K.sync_files(base / "t", files)
-            v, _ = judge_parse(par, "file", root_path(base / "t", "main.fcp", w.get("path_style", "abs")), mode, source_map(files), probes)
+            v, _ = judge_parse(par, "file", root_path(base / "t", "main.fcp", w.get("path_style", "abs")), mode, source_map(files), probes, tmo)
     for x in v:
         out.append(mk(x, w, w.get("fault", {}).get("kind", "?"), same_bn))
     return out
